@@ -61,6 +61,10 @@ def _case(draw):
         if draw(st.integers(0, 4)) == 3:
             # standard out is dropped, every other printer (the test printer, the Result) still gets the lines
             modes.append("print-mode: no-default")
+        if draw(st.integers(0, 5)) == 2:
+            # the member re-reads its headers from a data line: its own view only, never the line other members see
+            nrec = len(table["records"])
+            prog["comps"].insert(0, ["->", ["==", ["f", "line_number", [], []], ["t", draw(st.integers(1, max(1, nrec - 1)))]], ["f", "reset_headers", [], []]])
         if draw(st.integers(0, 4)) == 1:
             # a run-time argument error on every scanned line (column 0 holds text): handled per the configured policy
             prog["comps"].insert(draw(st.integers(0, len(prog["comps"]))), ["=", "ez", [], None, ["f", "add", [], [["hi", 0], ["t", 1]]]])
